@@ -3,29 +3,20 @@
 Require Import SF.Prelude SF.Dtype SF.GrowOnly SF.GrowOnlyHier
   Proofs.GrowOnlyIndex Proofs.GrowOnlyBlocks Proofs.GrowOnlyFrame Proofs.GrowOnlyExamples.
 
-(* IndexGO.extend with a duplicate after the first label: rejected, yet the labels before it stay *)
-Theorem C09_index_extend_not_atomic_refuted :
-  exists (s : igo Z) (vs : list Z),
-    igo_wf Z Z.eqb zpos s /\
-    is_ok (snd (M_extend Z Z.eqb zpos s vs)) = false /\
-    g_lm (fst (M_extend Z Z.eqb zpos s vs)) <> g_lm s.
-Proof. exists ex_igo, [9; 5; 11]. split; [exact ex_igo_wf|]. split; [reflexivity|]. vm_compute. discriminate. Qed.
-Print Assumptions C09_index_extend_not_atomic_refuted.
-
-(* FrameGO.extend(frame) with a duplicate column label after the first: rejected, but the labels before
-   it were appended and no data: more labels than columns *)
-Theorem C09_frame_extend_breaks_lockstep_refuted :
-  exists (f : fgo Z Z) (op : gop Z Z),
-    fgo_wf Z Z Z.eqb zpos f /\
-    is_ok (snd (M_step Z Z Z.eqb zpos zcast zresolve f op)) = false /\
-    let f' := fst (M_step Z Z Z.eqb zpos zcast zresolve f op) in
-    zlen (g_lm (f_cols f')) = 2 /\ t_ncols (f_tb f') = 1 /\
-    fo_readable (M_fobserve Z Z Z.eqb zpos f') = [true; false].
+(* the one residue of extend's validation: on a loc_is_iloc index __contains__ answers False for a label
+   that is not an int, so extend((5, 1.0)) on 0,1,2 passes validation, appends 5, and only then is 1.0
+   found to be a duplicate: rejected, yet 5 stays (outside ext_safe) *)
+Theorem C09_auto_index_extend_nonint_refuted :
+  exists (s : igo (Z * bool)) (vs : list (Z * bool)),
+    igo_wf (Z * bool) fl_eq fl_pos s /\
+    ext_safe (Z * bool) fl_eq fl_pos s vs = false /\
+    is_ok (snd (M_extend (Z * bool) fl_eq fl_pos s vs)) = false /\
+    g_lm (fst (M_extend (Z * bool) fl_eq fl_pos s vs)) <> g_lm s.
 Proof.
-  exists ex_fgo, (OExtFrame [1; 2] [8; 5] [mk_blk (DFlt 8) true 2 [[1; 2]; [3; 4]]] 0 (DFlt 8)).
-  split; [exact ex_fgo_wf|]. split; [reflexivity|]. cbv zeta. repeat split; reflexivity.
+  exists (M_inew_auto (Z * bool) [(0, true); (1, true); (2, true)]), [(5, true); (1, false)].
+  split; [repeat split|]. split; [reflexivity|]. split; [reflexivity|]. vm_compute. discriminate.
 Qed.
-Print Assumptions C09_frame_extend_breaks_lockstep_refuted.
+Print Assumptions C09_auto_index_extend_nonint_refuted.
 
 (* FrameGO.extend_items with a rejected pair after an accepted one: the accepted one stays *)
 Theorem C09_extend_items_not_atomic_refuted :
@@ -40,14 +31,3 @@ Proof.
 Qed.
 Print Assumptions C09_extend_items_not_atomic_refuted.
 
-(* IndexHierarchyGO.extend with an existing outer label after a new one: rejected, yet the root index
-   keeps the new outer label without a subtree *)
-Theorem C09_hier_extend_not_atomic_refuted :
-  exists (h o : hgo Z),
-    is_ok (snd (M_hextend Z Z.eqb h o)) = false /\
-    lvl_labels Z (h_tree (fst (M_hextend Z Z.eqb h o))) <> lvl_labels Z (h_tree h).
-Proof.
-  exists (mk_hgo (Node [10; 20] [Leaf [1]; Leaf [1]]) 2), (mk_hgo (Node [30; 20] [Leaf [1]; Leaf [2]]) 2).
-  split; [reflexivity|]. vm_compute. discriminate.
-Qed.
-Print Assumptions C09_hier_extend_not_atomic_refuted.
